@@ -225,6 +225,12 @@ func (s *Sym) MakeFn(name string, args ...*RF) *RF {
 			if n := args[0].SingleAtom(); n != nil && n.Name == "nil" {
 				return s.Fn("copyof", args[1])
 			}
+			// likewise append(make([]T, 0, n), xs...)
+			if n := args[0].SingleAtom(); n != nil && strings.HasPrefix(n.Name, "makeslice:") && len(n.Args) == 1 {
+				if z, ok := n.Args[0].IsConst(); ok && z.Sign() == 0 {
+					return s.Fn("copyof", args[1])
+				}
+			}
 		}
 	case "shr":
 		// x >> 0 is x
